@@ -368,6 +368,8 @@ pub enum EvOp {
     World(Op),
     /// Server emits an event of a kind with a send mode, optionally referencing an entity slot.
     EmitS(SK, Mode, Option<u8>),
+    /// Several server emissions before one and the same frame (see `bursts`).
+    Burst(u8),
     /// Client `c` emits an event, optionally referencing an entity slot (mapped to the client's entity).
     EmitC(u8, CK, Option<u8>),
     /// Client `c` first emits a mapped event referencing an entity the server cannot know (refused
@@ -402,6 +404,19 @@ pub enum EvOp {
     ReMark(u8),
 }
 
+/// Emission sequences of `EvOp::Burst`: all of one burst is emitted before the same frame.
+pub fn burst(k: u8) -> Vec<(SK, Mode, Option<u8>)> {
+    match k {
+        // an exception that must not spill over to the events that follow it
+        0 => vec![(SK::E1, Mode::Except(0), None), (SK::E1, Mode::Broadcast, None), (SK::E1, Mode::Direct(0), None)],
+        // an event some recipients cannot translate, followed by events they can
+        1 => vec![(SK::EM, Mode::Broadcast, Some(1)), (SK::EM, Mode::Broadcast, Some(0)), (SK::E1, Mode::Broadcast, None), (SK::T1, Mode::Broadcast, None)],
+        // a direct event (the addressee may not be authorized), then a broadcast
+        2 => vec![(SK::E1, Mode::Direct(1), None), (SK::E1, Mode::Broadcast, None), (SK::E2, Mode::Broadcast, None)],
+        _ => unreachable!(),
+    }
+}
+
 impl EvOp {
     pub fn show(&self) -> String {
         match self {
@@ -415,6 +430,10 @@ impl EvOp {
                     Mode::Direct(c) => format!("to c{c}"),
                 },
                 r.map(|s| format!(" ref e{}", s + 1)).unwrap_or_default()
+            ),
+            EvOp::Burst(k) => format!(
+                "in one frame: {}",
+                burst(*k).iter().map(|(kind, m, r)| EvOp::EmitS(*kind, *m, *r).show()).collect::<Vec<_>>().join("; ")
             ),
             EvOp::EmitC(c, k, r) => format!(
                 "c{c} emits {k:?}{}",
@@ -608,6 +627,7 @@ impl EvCell {
                 };
                 target_ok && r.is_none_or(|s| x.sim.marked(s))
             }
+            EvOp::Burst(k) => burst(k).into_iter().all(|(kind, m, r)| self.op_enabled(x, EvOp::EmitS(kind, m, r))),
             EvOp::EmitC(c, _, r) | EvOp::EmitCAfterBad(c, _, r) => {
                 Self::connected(x, c as usize)
                     && r.is_none_or(|s| {
@@ -718,6 +738,11 @@ impl EvCell {
             EvOp::Authorize(c) => {
                 let conn = x.sim.clients[c as usize].conn.unwrap();
                 x.sim.server.world_mut().entity_mut(conn).insert(AuthorizedClient);
+            }
+            EvOp::Burst(k) => {
+                for (kind, m, r) in burst(k) {
+                    self.apply_ev_op(x, EvOp::EmitS(kind, m, r));
+                }
             }
             EvOp::EmitS(kind, mode, r) => {
                 let n = x.next_n;
